@@ -183,7 +183,7 @@ class Data2D(Block):
             self.nCams == o.nCams
             and self.nFrames == o.nFrames
             and self.frequency == o.frequency
-            and self.startTime == o.startTime
+            and f32.btype.type(self.startTime) == f32.btype.type(o.startTime)
             and self.flags == o.flags
             and np.array_equal(self._camMap, o._camMap)
             and all(
